@@ -114,7 +114,7 @@ def run(tier):
         nmarkers += v["ncode"]
         if not v["ok"]:
             sig = {"kind": "markers", "cfg": o["cfg"], "rules": o["rules"], "lex_out": v["lex_out"], "marker_line": v["ncomments"], "found_on_line_offset": v["shift"],
-                   "markers_ok": v["lines_ok"], "cause": cause_of(o, v), "stag": o.get("stag", ""), "moved_names": [bytes(x).decode("latin-1") for x in v.get("moved", [])][:6],
+                   "markers_ok": v["lines_ok"], "skeleton_ok": v["comments_ok"], "cause": cause_of(o, v), "stag": o.get("stag", ""), "moved_names": [bytes(x).decode("latin-1") for x in v.get("moved", [])][:6],
                    "tpl": o["tpl"], "g1": o["g1"], "k1": o["k1"], "g2": o["g2"], "k2": o["k2"]}
             payload = {k: o[k] for k in o if k not in ("srcb", "outb")}
             payload["src"] = text_of(o["srcb"])
